@@ -75,8 +75,14 @@ def renderCodeSpan (t : Str) : Str :=
     delim ++ ' ' :: t ++ ' ' :: delim
   else delim ++ t ++ delim
 
+/-- the definition's title as `render_link_ref_def` writes it (`title if title else None`) -/
+def defTitle (t : Option Str) : Option Str :=
+  match t with
+  | some x => if x.isEmpty then none else some (normalizeTitleRaw x)
+  | none => none
+
 def findLabel (defs : List (Str × Str × Option Str)) (dest : Str) (title : Option Str) : Option Str :=
-  (defs.find? fun d => d.2.1 == dest && d.2.2 == title).map (·.1)
+  (defs.find? fun d => d.2.1 == dest && defTitle d.2.2 == title).map (·.1)
 
 mutual
   /-- returns (rendered text, new `_current_inline_text`) -/
@@ -203,8 +209,8 @@ mutual
     | .para cs checked =>
       let r := renderInlines cfg false [] cs
       let children : Str := match checked with
-        | some true => "[x] ".toList ++ r.1
-        | some false => "[ ] ".toList ++ r.1
+        | some true => "[x] ".toList ++ lstrip r.1
+        | some false => "[ ] ".toList ++ lstrip r.1
         | none => r.1
       (cfg.wrap children st.pfx st.snd ++ ['\n'],
        { st with skipBlank := false, suppress := false, acc := [], pfx := st.snd })
@@ -280,7 +286,9 @@ mutual
     | [] => ([], st)
     | b :: rest =>
       let p := itemPrefix ordered start i bullet
-      let r := renderBlock cfg { st with pfx := st.pfx ++ p.1, snd := st.snd ++ p.2 } b
+      -- an item starting on the first line of its container has no line above it to separate from
+      let sup := if !st.listTight && st.pfx != st.snd then true else st.suppress
+      let r := renderBlock cfg { st with pfx := st.pfx ++ p.1, snd := st.snd ++ p.2, suppress := sup } b
       -- container exit restores the entry prefixes; then `self._prefix = self._second_prefix`
       let r2 := renderItems cfg { r.2 with pfx := st.snd, snd := st.snd } ordered start bullet (i + 1) rest
       (r.1 ++ r2.1, r2.2)
